@@ -58,7 +58,7 @@ func corpus(c *Ctx, max int) []srcFile {
 		if g := goroot(); g != "" {
 			paths = append(paths, listGo(g, true)...)
 		}
-		for _, p := range listGo("/repo", true) {
+		for _, p := range listGo(envOr("VERIF_REPO", "/repo"), true) {
 			if !strings.Contains(p, "/gendst/data/positions.go") {
 				paths = append(paths, p)
 			}
